@@ -22,7 +22,9 @@ NUMBERS = ["0", "1", "42", "3.14", ".5", "5.", "1e10", "1E-3", "2.5e+3", "0x10",
 STRINGS = ["''", '""', "'a'", '"b"', "'it\\'s'", '"q\\"q"', "'\\n\\t\\\\'", '"\\065\\10"', "'\\x41\\u{48}'", "'\\z   x'",
            '"tab\\tend"', "[[long]]", "[==[with ]] and ]=] inside]==]", "[=[\nfirst newline]=]", "[[multi\nline\ntext]]",
            "'\\\nnext'", '"caf\xc3\xa9 \xe2\x9c\x93"', "'--not a comment'", '"[[not long]]"', "'`'", "[[]]", "[=[]]]=]",
-           "'\\a\\b\\f\\v\\r'", '"\\u{1F600}"', "'\\255\\0'"]
+           "'\\a\\b\\f\\v\\r'", '"\\u{1F600}"', "'\\255\\0'",
+           # tokens that span lines: `\z` + line break, two continuation lines, long string of level 2
+           '"skip\\z\n    over"', "'one\\\ntwo\\\nthree'", "[==[\n\n]==]"]
 BINOPS = ["+", "-", "*", "/", "//", "%", "^", "..", "==", "~=", "<", "<=", ">", ">=", "and", "or"]
 UNOPS = ["-", "not", "#"]
 COMPOUND = ["+=", "-=", "*=", "/=", "//=", "%=", "^=", "..="]
@@ -205,7 +207,8 @@ class Gen:
     def interpolated(self):
         self.features.add("istring")
         k = self.rng.randrange(3)
-        chunks = ["", "text", "a\\{b", "\\`", "x y", "-- no", "\\n"]
+        # literal segments, some spanning lines through backslash-newline or `\z` + newline
+        chunks = ["", "text", "a\\{b", "\\`", "x y", "-- no", "\\n", "first\\\nsecond", "skip\\z\n   over", "\\\n"]
         if k == 0:
             self.t("`" + self.rng.choice(chunks) + "`", "istr")
             return
@@ -319,7 +322,11 @@ class Gen:
             self.t("(")
             self.t(")")
         elif r == 1:
-            self.t(";")      # a statement must not start with `(` right after an expression
+            # a statement must not start with `(` right after an expression, and `;` needs a statement before it
+            self.name()
+            self.t("(")
+            self.t(")")
+            self.t(";")
             self.t("(")
             self.name()
             self.t(")")
@@ -727,6 +734,13 @@ FIXED_SOURCES = [
     "local t = {1, 2; 3,}\nlocal u = {a = 1; b = 2, [3] = 4;}\n",
     "f'x' g\"y\" h[[z]] k{1} m:n'x' m:n{2}\n",
     "local s = `a{1}b{ ({x = 1}).x }c`\nlocal e = ``\n",
+    # interpolated strings whose literal segment spans lines
+    "return `first line\\\nsecond line`\n",
+    "local a = `first\\\nsecond{1}third\\\nfourth{2}fifth\\z\n   sixth`\nreturn a\n",
+    "local b = `{x}tail\\\nnext line`\nlocal c = `head\\\nnext{y}`\nreturn b, c\n",
+    "return `first line\\\r\nsecond line`\r\n",
+    "local z = `skip\\z\n\n     over{1}`\nreturn z, 'q\\z\n  r', \"s\\\nt\"\n",
+    "local l = [==[\nlong\n\nstring]==] --[==[ long\n\ncomment ]==] return l\n",
     "local n = 0xFF + 0b11 + 1_000 + 1e3 + .5 + 5.\n",
     "local a = b;;local c = d; ; return c;\n",
     "local x = a[b[c]] .. 5 .. y\nreturn x..5, a[b[c]]\n",
